@@ -1,4 +1,6 @@
 import Dashu.Model.Int.Repr
+import Dashu.Model.Int.Mul
+import Dashu.Gen.Misc
 /-
   Operator layer for `UBig`/`IBig` ring arithmetic: the sign tables of `add_ops.rs`
   (`impl_ibig_add`, `impl_ibig_sub`), `mul_ops.rs` (`impl_ibig_mul`) composed with the dispatch
@@ -73,6 +75,22 @@ def isPow2 (n : Nat) : Bool := n ≠ 0 && n &&& (n - 1) = 0
 def mulLargeFrontier (W : Nat) (lhs rhs : List Nat) : TRepr :=
   ofNat W (val W lhs * val W rhs)
 
+/-- `mul_large(lhs, rhs)` (`mul_ops.rs mod repr`): equal operands go to `square_large`; otherwise a
+    zero-filled buffer of `lhs.len() + rhs.len()` words is passed to `mul::multiply`, i.e.
+    `mul::add_signed_mul(c, Positive, a, b)` with `a` the longer operand.  When the shorter operand has
+    at most `THRESHOLD_SIMPLE` words and the longer at most `simple::CHUNK_LEN`, that is
+    `simple::add_signed_mul_chunk` = `add_mul_chunk` (mirrored in `Model/Int/Mul.lean`); the constants
+    are regenerated from the source (`Dashu.Gen`).  Other sizes (chunk splitting, Karatsuba, Toom-3) and
+    squaring are still frontier. -/
+def mulLarge (W : Nat) (lhs rhs : List Nat) : TRepr :=
+  if lhs = rhs then mulLargeFrontier W lhs lhs
+  else
+    let a := if lhs.length < rhs.length then rhs else lhs
+    let b := if lhs.length < rhs.length then lhs else rhs
+    if b.length ≤ Dashu.Gen.mul_THRESHOLD_SIMPLE ∧ a.length ≤ Dashu.Gen.mul_simple_CHUNK_LEN then
+      fromBuffer W (addMulChunk W a (List.replicate (a.length + b.length) 0) b 0).1
+    else mulLargeFrontier W lhs rhs
+
 /-- `mul_dword` -/
 def mulDword (W : Nat) (a b : Nat) : TRepr :=
   if a < 2 ^ W ∧ b < 2 ^ W then .small (a * b)
@@ -101,7 +119,7 @@ def TRepr.mul (W : Nat) (a b : TRepr) : TRepr :=
   | .small x, .small y => mulDword W x y
   | .small x, .large ws => mulLargeDword W ws x
   | .large ws, .small y => mulLargeDword W ws y
-  | .large w0, .large w1 => mulLargeFrontier W w0 w1
+  | .large w0, .large w1 => mulLarge W w0 w1
 
 /-- `TypedReprRef::sqr` -/
 def TRepr.sqr (W : Nat) : TRepr → TRepr
